@@ -1,13 +1,11 @@
+use crate::sync::RwLock;
 use crate::{
     Event, Result, ShareLock,
     event::Message,
     scheduler::{Process, Runtime, Task},
     utils,
 };
-use std::{
-    collections::HashMap,
-    sync::{Arc, RwLock},
-};
+use std::{collections::HashMap, sync::Arc};
 use tokio::runtime::Handle;
 use tracing::debug;
 
